@@ -19,7 +19,10 @@ DYNAMIC_TAGS = ['{extract(field.memo, "PROJ:(\\\\w+)")}', '{split(description, "
 # comment lines that look like something else or end in characters a sloppy line reader trips over
 TRICKY_COMMENTS = ['# exported from C:\\Users\\me\\budget\\', '# trailing backslash \\', '#', '#=', '# a = b', '# [Fake Section]',
                    '# priority: high', '# "unbalanced', "# it's", '# tab\there', '# caf\u00e9 \u2013 notes', '#\\', '# filter:', '# x: y: z',
-                   '# line with trailing blanks   ', '## double', '#!shebang-like', '# 100% (percent) {braces} [brackets]']
+                   '# line with trailing blanks   ', '## double', '#!shebang-like', '# 100% (percent) {braces} [brackets]',
+                   # one physical line each: only \n (and \r\n) end a line in these files
+                   '# page break\x0ccategory: Junk', '# pasted from the web\u2028filter: False', '# nel\x85priority: x',
+                   '# ps\u2029[Ghost]', '# vt\x0bmatch: contains("X")', '# fs\x1cbogus: 1']
 
 # ----------------------------------------------------------------------------- legacy CSV
 
